@@ -276,7 +276,6 @@ func (wg *WaitGroup) Wait() {
 // ---------------------------------------------------------------------------
 // Map order
 
-
 // (race annotations are meaningless without the race detector)
 func raceAcquire[T any](p *T)      {}
 func raceRelease[T any](p *T)      {}
